@@ -5,7 +5,7 @@
    is the state after the schedule [sched] (any list of (thread, choice)); [mk_cfg] rounds the
    requested capacity as muggle_channel_init does; hypothesis [wk = WSingle -> nw <= 1] is the
    documented usage of MUGGLE_CHANNEL_FLAG_WRITE_SINGLE. *)
-From MV Require Import C01.Model C01.ModelQ C01.ProofsArith C01.ProofsSC C01.ProofsView C01.ProofsViewM C01.ProofsOrder C01.ProofsQ C01.ProofsQV C01.ProofsDV C01.Dispatch C01.ProofsDispatch gen.Params_C01.
+From MV Require Import C01.Model C01.ModelQ C01.ProofsArith C01.ProofsSC C01.ProofsView C01.ProofsViewM C01.ProofsOrder C01.ProofsQ C01.ProofsQV C01.ProofsDV C01.Dispatch C01.ProofsDispatch C01.ProofsFlags gen.Params_C01.
 Local Open Scope Z_scope.
 
 (* side condition on the code's memory orders: release on every store of write_cursor, acquire
@@ -178,6 +178,73 @@ Print Assumptions dbuf_full_only_if_full.
 Theorem chan_dispatch_matches_model : code_dispatch_table = map model_dispatch (flag_domain 512).
 Proof. vm_compute. reflexivity. Qed.
 Print Assumptions chan_dispatch_matches_model.
+
+(* ... and the configuration the flags theorems below quantify over is the one the code installs:
+   for every flags value in [0, 512) the installed lock / unlock / write / wake / read functions are
+   those of mk_cfg_flags (the lock sub-automaton and reader mode the model runs), the mutexes and the
+   condition variable exist exactly when that configuration uses them, the capacity is the model's,
+   and no writer selector other than MUGGLE_CHANNEL_FLAG_WRITE_SINGLE (flags & 15 = 3) installs the
+   no-op lock.  Complete finite sweep; bound: 512 flag values (the model looks at the low byte only:
+   chan_flag_byte_exhaustive) *)
+Theorem chan_dispatch_selects_flags_cfg :
+  forallb row_selects_cfg code_dispatch_table = true /\ map row_flags code_dispatch_table = flag_domain 512.
+Proof. vm_compute. split; reflexivity. Qed.
+Print Assumptions chan_dispatch_selects_flags_cfg.
+
+(* the mode table looks at the low byte of flags only (so the 256 flag bytes are all there is),
+   selects the no-op writer lock exactly for writer selector 3, and sends every out-of-range
+   selector to the mutex *)
+Theorem chan_flag_byte_exhaustive : forall f reqcap nw maxtry,
+  (mk_cfg_flags (f mod 256) reqcap nw maxtry = mk_cfg_flags f reqcap nw maxtry /\ 0 <= f mod 256 < 256) /\
+  (flag_wk f = WSingle <-> Z.land f 15 = 3) /\
+  (3 < Z.land f 15 -> flag_wk f = WMutex) /\
+  (Z.land f 240 <> 0 -> Z.land f 240 <> 32 -> flag_rm f = RMutex).
+Proof.
+  intros f reqcap nw maxtry.
+  exact (conj (mk_cfg_flags_byte f reqcap nw maxtry)
+           (conj (flag_wk_single_iff f) (conj (flag_wk_out_of_range f) (flag_rm_out_of_range f)))).
+Qed.
+Print Assumptions chan_flag_byte_exhaustive.
+
+(* the property for EVERY flags value muggle_channel_init can be given (valid, invalid and
+   out-of-range selectors, any higher bits), any number of writers unless the writer selector is
+   MUGGLE_CHANNEL_FLAG_WRITE_SINGLE (documented usage: one writer), any capacity, every schedule:
+   delivered is a prefix of accepted and equal when drained, per-writer order, FULL only if full,
+   no overwrite of an unread message, every plain read of the reader covered by its view *)
+Theorem chan_flags_exactly_once_in_order : forall f reqcap nw maxtry nread ks sched,
+  (Z.land f 15 = 3 -> (nw <= 1)%nat) ->
+  let s := reach code_params (mk_cfg_flags f reqcap nw maxtry) nread ks sched in
+  (c_del s = map Some (firstn (length (c_del s)) (c_acc s)) /\ (length (c_del s) <= length (c_acc s))%nat /\
+   (length (c_del s) = length (c_acc s) -> c_del s = map Some (c_acc s))) /\
+  (wsorted (c_acc s) /\
+   exists l, c_del s = map Some l /\ l = firstn (length (c_del s)) (c_acc s) /\ wsorted l) /\
+  c_badfull s = 0%nat /\ c_overw s = 0%nat /\ c_uncov s = 0%nat.
+Proof. exact (chan_flags_delivery_all code_params code_chan_mo_ok code_lock_mo_ok). Qed.
+Print Assumptions chan_flags_exactly_once_in_order.
+
+Theorem chan_flags_payload_visible : forall f reqcap nw maxtry nread ks sched m,
+  (Z.land f 15 = 3 -> (nw <= 1)%nat) ->
+  let s := reach code_params (mk_cfg_flags f reqcap nw maxtry) nread ks sched in
+  (t_pc (c_thr s 0%nat) = RStoreR \/ t_pc (c_thr s 0%nat) = RMUnlock \/ t_pc (c_thr s 0%nat) = RRet) ->
+  t_d (c_thr s 0%nat) = Some m ->
+  In m (c_acc s) /\ vget (t_view (c_thr s 0%nat)) (CPay m) = c_pver s m.
+Proof. exact (chan_flags_payload_visible_all code_params code_chan_mo_ok code_lock_mo_ok). Qed.
+Print Assumptions chan_flags_payload_visible.
+
+(* a writer selector other than WRITE_SINGLE -- 0, 1, 2 and every out-of-range value 4 .. 15 -- is
+   a real lock for ANY number of concurrent writers: the selected kind is not the no-op lock, at
+   most one writer is between fn_lock and fn_unlock, nobody is while the lock word is free, and at
+   most capacity - 2 accepted messages are unread *)
+Theorem chan_flags_writers_excluded : forall f reqcap nw maxtry nread ks sched,
+  Z.land f 15 <> 3 ->
+  let g := mk_cfg_flags f reqcap nw maxtry in
+  let s := reach code_params g nread ks sched in
+  g_wk g <> WSingle /\
+  (forall t u, hold (t_pc (c_thr s t)) = true -> hold (t_pc (c_thr s u)) = true -> t = u) /\
+  (c_lock s = 0 -> forall t, hold (t_pc (c_thr s t)) = false) /\
+  Z.of_nat (length (c_acc s)) - Z.of_nat (c_R s) <= usable (g_cap g).
+Proof. exact (chan_flags_writers_excluded_all code_params). Qed.
+Print Assumptions chan_flags_writers_excluded.
 
 (* capacity: for every requested capacity in [0, 1025] (and three requests whose rounding does not
    fit muggle_sync_t) init refuses exactly when the model does, and otherwise capacity and the three
